@@ -119,12 +119,16 @@ pub enum Call {
     Refresh,
     Rekey(&'static str),
     Recaps,
+    /// decapsulation of a well-formed encapsulation that holds no right-encapsulation at all
+    DecapsCrafted,
 }
 
 #[derive(Debug)]
 pub enum Output {
     Enc { policy: &'static str, secret: Vec<u8>, enc: Vec<u8> },
     Decapsed { ok: bool },
+    /// outcome of the crafted decapsulation, compared with the outcome of the same call alone
+    Crafted { outcome: String },
     Ctx { policy: &'static str, enc: Vec<u8>, body: Vec<u8> },
     Hdr { policy: &'static str, secret: Vec<u8>, hdr: Vec<u8> },
     HdrRt { ok: bool },
@@ -151,6 +155,8 @@ pub fn scenarios(thorough: bool) -> Vec<Scenario> {
     // three dimensions, four-target policies, two different audiences
     v.push(Scenario { name: "S7 encaps(PX);encaps(PX) | encaps(PY) | keygen", threads: vec![vec![Encaps(PX), Encaps(PX)], vec![Encaps(PY)], vec![Keygen("A::x")]] });
     v.push(Scenario { name: "S8 encrypt(PX) | keygen | header(PY)", threads: vec![vec![Encrypt(PX)], vec![Keygen("A::y")], vec![Header(PY)]] });
+    // one thread decapsulates hostile input while two others produce headers for two audiences
+    v.push(Scenario { name: "S9 decaps(crafted) | header | header", threads: vec![vec![DecapsCrafted], vec![Header("A::x")], vec![Header("A::y")]] });
     if thorough {
         v.push(Scenario { name: "S6 3 threads x 2 calls", threads: vec![vec![Encrypt("A::x"), Keygen("A::x")], vec![Header("A::x"), Encaps("A::x")], vec![Refresh, Encrypt("A::x")]] });
     } else {
@@ -170,6 +176,18 @@ pub struct Fixture {
     pub enc0: XEnc,
     pub secret0: Vec<u8>,
     pub issued_usk: Vec<u8>,
+    /// enc0 without any right-encapsulation, and what decapsulating it returns when run alone
+    pub crafted: XEnc,
+    pub crafted_alone: String,
+}
+
+fn crafted_outcome(cc: &Covercrypt, k: &UserSecretKey, e: &XEnc) -> String {
+    match catch_unwind(AssertUnwindSafe(|| cc.decaps(k, e))) {
+        Ok(Ok(Some(_))) => "a secret".into(),
+        Ok(Ok(None)) => "no secret".into(),
+        Ok(Err(e)) => format!("error: {e}"),
+        Err(_) => "panic".into(),
+    }
 }
 
 pub const PX: &str = "A::x && B::u && H::lo || A::x && B::u && H::hi || A::x && B::v && H::lo || A::x && B::v && H::hi";
@@ -190,7 +208,14 @@ pub fn fixture() -> Fixture {
     let k_yall = b.cc.generate_user_secret_key(&mut b.msk, &p("A::y")).unwrap();
     let issued = b.cc.generate_user_secret_key(&mut b.msk, &p("A::x && H::hi")).unwrap();
     let (s0, enc0) = b.cc.encaps(&b.mpk, &p("A::x")).unwrap();
-    Fixture { msk_bytes: ser(&b.msk), mpk: b.mpk, k_x, k_y, k_hi, k_yall, enc0, secret0: s0.to_vec(), issued_usk: ser(&issued) }
+    let crafted = {
+        let mut w = wire::WEnc::decode(&ser(&enc0)).expect("decode enc0");
+        w.items.clear();
+        XEnc::deserialize(&w.encode()).expect("an encapsulation without items deserialises")
+    };
+    // alone, on an instance of its own (a panic there cannot reach the shared instance)
+    let crafted_alone = crafted_outcome(&Covercrypt::default(), &k_x, &crafted);
+    Fixture { msk_bytes: ser(&b.msk), mpk: b.mpk, k_x, k_y, k_hi, k_yall, enc0, secret0: s0.to_vec(), issued_usk: ser(&issued), crafted, crafted_alone }
 }
 
 type E = Aes256Gcm;
@@ -237,6 +262,7 @@ fn run_call(cc: &Covercrypt, fx: &Fixture, msk: &mut MasterSecretKey, usk: &mut 
             Ok(m) => Output::Rekeyed { mpk: ser(&m) },
             Err(e) => Output::Failed(format!("rekey: {e}")),
         },
+        Call::DecapsCrafted => Output::Crafted { outcome: crafted_outcome(cc, &fx.k_x, &fx.crafted) },
         Call::Recaps => match cc.recaps(msk, &fx.mpk, &fx.enc0) {
             Ok((s, e)) => Output::Enc { policy: "A::x", secret: s.to_vec(), enc: ser(&e) },
             Err(e) => Output::Failed(format!("recaps: {e}")),
@@ -426,6 +452,7 @@ pub fn judge(fx: &Fixture, outputs: &[Vec<Output>]) -> Option<(String, String)> 
         for o in outs {
             match o {
                 Output::Failed(m) => return Some(("C19.b".into(), format!("thread {t}: {m}"))),
+                Output::Crafted { outcome } if *outcome != fx.crafted_alone => return Some(("C19.b".into(), format!("thread {t}: decapsulating the encapsulation without items gave {outcome:?}, alone it gives {:?}", fx.crafted_alone))),
                 Output::Decapsed { ok: false } => return Some(("C19.b".into(), format!("thread {t}: decaps did not return the known secret"))),
                 Output::HdrRt { ok: false } => return Some(("C19.b".into(), format!("thread {t}: header did not decrypt to its own secret and metadata"))),
                 Output::Enc { policy, secret, enc } => {
